@@ -713,6 +713,10 @@ func (e *bEngine) runPath(st *bState, work *[]*bState, atReturn func(st *bState,
 					panic(bPathEnd{"index into nil slice"})
 				}
 				ln := st.norm(b.len)
+				if e.safetyIndex {
+					// `safety index`: an index expression on a slice owes 0 <= i < len (a run-time panic otherwise)
+					e.oblige(st, "index", fmt.Sprintf("%s.b%d", fn.Name(), fr.block), And(Le(ConstI(0), idx), Lt(idx, ln)), e.fp.fset.Position(x.Pos()).String())
+				}
 				if ln.IsConst() && idx.IsConst() && (idx.Val.Sign() < 0 || idx.Val.Cmp(ln.Val) >= 0) {
 					panic(bPathEnd{"index out of range"})
 				}
@@ -881,7 +885,14 @@ func (e *bEngine) runPath(st *bState, work *[]*bState, atReturn func(st *bState,
 		case *ssa.MapUpdate:
 			e.note("map updates are not modelled")
 		case *ssa.MakeClosure:
-			fr.vals[x] = bFuncVal{x.Fn.String()}
+			fv := bFuncVal{name: x.Fn.String()}
+			if f, ok := x.Fn.(*ssa.Function); ok {
+				fv.fn = f
+				for _, b := range x.Bindings {
+					fv.free = append(fv.free, e.get(st, fr, b))
+				}
+			}
+			fr.vals[x] = fv
 		case *ssa.RunDefers:
 		case *ssa.Jump:
 			fr.prev = fr.block
@@ -1107,6 +1118,7 @@ func (e *bEngine) doCall(st *bState, fr *bFrame, ci ssa.CallInstruction) {
 		return
 	}
 	var callee *ssa.Function
+	var bindings []bVal
 	if c.IsInvoke() {
 		recv := e.get(st, fr, c.Value)
 		iv, _ := recv.(*bIface)
@@ -1146,6 +1158,12 @@ func (e *bEngine) doCall(st *bState, fr *bFrame, ci ssa.CallInstruction) {
 			setRes(freshRes("closure"))
 			return
 		default:
+			// a function value the execution knows (a bound method value such as ringQ.AtLevel(l).Sub
+			// handed to a helper, a function literal): called like any other function
+			if fv, ok := e.get(st, fr, c.Value).(bFuncVal); ok && fv.fn != nil && len(fv.fn.Blocks) > 0 {
+				callee, bindings = fv.fn, fv.free
+				break
+			}
 			if e.callbackPure != "" {
 				// `callback <reason>`: a function value supplied by the user is ASSUMED to work on its own
 				// arguments only (the contract says why); recorded as an assumption of the check
@@ -1157,7 +1175,7 @@ func (e *bEngine) doCall(st *bState, fr *bFrame, ci ssa.CallInstruction) {
 			return
 		}
 	}
-	if con, _ := e.contractFor(callee); con != nil {
+	if con, _ := e.contractFor(callee); con != nil && !strings.HasPrefix(callee.Synthetic, "bound method wrapper") {
 		setRes(e.applyContract(st, con, callee, args, at))
 		return
 	}
@@ -1168,6 +1186,11 @@ func (e *bEngine) doCall(st *bState, fr *bFrame, ci ssa.CallInstruction) {
 	if !isModuleFunc(callee) || len(callee.Blocks) == 0 {
 		// outside the module: assumed not to touch polynomial storage
 		setRes(freshRes(callee.Name()))
+		return
+	}
+	// a two-way scalar choice (utils.Min / utils.Max ...): one if-then-else term instead of two paths
+	if v, ok := e.tryIteCall(st, callee, args); ok {
+		setRes(v)
 		return
 	}
 	// a module function without abstract contract: execute it inline
@@ -1185,7 +1208,7 @@ func (e *bEngine) doCall(st *bState, fr *bFrame, ci ssa.CallInstruction) {
 		return
 	}
 	e.inlined[shortPkg(frameKeyOrName(callee))] = true
-	e.pushFrame(st, callee, args, ci, nil)
+	e.pushFrame(st, callee, args, ci, bindings)
 }
 
 func frameKeyOrName(f *ssa.Function) string {
@@ -1310,6 +1333,26 @@ func (e *bEngine) resolveDyn(fn *ssa.Function, spec string) types.Type {
 		}
 	}
 	scan(fn, 0)
+	if found == nil {
+		// not asserted anywhere (the function only tests for an interface): a named type of the module,
+		// written pkg.Name or *pkg.Name
+		ptr := strings.HasPrefix(want, "*")
+		qn := strings.TrimPrefix(want, "*")
+		if i := strings.LastIndex(qn, "."); i > 0 {
+			pn, tn := qn[:i], qn[i+1:]
+			for _, p := range e.fp.prog.AllPackages() {
+				if p.Pkg == nil || p.Pkg.Name() != pn || !strings.HasPrefix(p.Pkg.Path(), modPath) {
+					continue
+				}
+				if o, ok := p.Pkg.Scope().Lookup(tn).(*types.TypeName); ok {
+					found = o.Type()
+					if ptr {
+						found = types.NewPointer(found)
+					}
+				}
+			}
+		}
+	}
 	return found
 }
 
@@ -1434,6 +1477,14 @@ func (e *bEngine) verify(caseSpec string) {
 	}
 	e.loopAbs = len(con.Raw["loopabs"]) > 0
 	e.safety = len(con.Raw["safety"]) > 0
+	e.safetyIndex = false
+	for _, sf := range con.Raw["safety"] {
+		for _, f := range strings.Fields(sf) {
+			if f == "index" {
+				e.safetyIndex = true
+			}
+		}
+	}
 	e.nilable = len(con.Raw["nilable"]) > 0
 	e.nilsafe = len(con.Raw["nilsafe"]) > 0
 	e.callbackPure = strings.Join(con.Raw["callback"], " ")
@@ -1573,6 +1624,10 @@ func (e *bEngine) verify(caseSpec string) {
 			}
 			name := strings.TrimSpace(kv[0])
 			v := cloneVal(e.env(st, st, bind, nil, con, pkg).Eval(x))
+			if iv, ok := v.(*bIface); ok && iv.val != nil {
+				// alias <pointer parameter> = <interface parameter with a `dyn` type>: the pointer it holds
+				v = iv.val
+			}
 			bind[name] = v
 			for j, p := range fn.Params {
 				if p.Name() == name {
@@ -1648,8 +1703,11 @@ func (e *bEngine) verify(caseSpec string) {
 			}
 		}
 		for i, en := range con.Ensures {
-			// the old state shares the final object graph for lazily materialised inputs but keeps the entry ghost arrays
-			old := &bState{objs: fs.objs, ghost: entryOld.ghost, path: fs.path, seen: fs.seen, consts: fs.consts}
+			// the old state: the object graph and the ghost arrays of the entry state (a private copy: inputs
+			// materialised lazily while a clause is evaluated get the same access-path names as during the run),
+			// read under what the path has learnt since
+			ec := e.entry.clone()
+			old := &bState{objs: ec.objs, ghost: entryOld.ghost, path: fs.path, seen: fs.seen, consts: fs.consts}
 			g := e.env(fs, old, b2, bind, con, pkg).Term(en.Expr)
 			for j, gj := range conjuncts(fs.norm(g)) {
 				d := fmt.Sprintf("%d", i)
@@ -1676,4 +1734,80 @@ func (e *bEngine) verify(caseSpec string) {
 		o.Assume = lastPath
 		e.obls = append(e.obls, o)
 	}
+}
+
+// tryIteCall: a function of scalars whose body is `if c { return x }; return y` with c, x, y computed
+// from the parameters by scalar operators only is evaluated to the term ite(c, x, y): no path split.
+func (e *bEngine) tryIteCall(st *bState, f *ssa.Function, args []bVal) (bVal, bool) {
+	if len(f.Blocks) != 3 || len(f.FreeVars) > 0 || f.Signature.Results().Len() != 1 {
+		return nil, false
+	}
+	b0 := f.Blocks[0]
+	cond, ok := b0.Instrs[len(b0.Instrs)-1].(*ssa.If)
+	if !ok || len(b0.Succs) != 2 {
+		return nil, false
+	}
+	fr := &bFrame{fn: f, vals: map[interface{}]bVal{}, visits: map[int]int{}, prev: -1}
+	for i, p := range f.Params {
+		if i >= len(args) {
+			return nil, false
+		}
+		if _, ok := args[i].(bScalar); !ok {
+			return nil, false
+		}
+		fr.vals[p] = args[i]
+	}
+	for _, ins := range b0.Instrs[:len(b0.Instrs)-1] {
+		switch x := ins.(type) {
+		case *ssa.DebugRef:
+		case *ssa.BinOp:
+			v := e.binop(st, x.Op, e.get(st, fr, x.X), e.get(st, fr, x.Y), x.Type())
+			if _, ok := v.(bScalar); !ok {
+				return nil, false
+			}
+			fr.vals[x] = v
+		default:
+			return nil, false
+		}
+	}
+	ret := func(b *ssa.BasicBlock) (*Term, bool) {
+		var r *ssa.Return
+		for _, ins := range b.Instrs {
+			switch x := ins.(type) {
+			case *ssa.DebugRef:
+			case *ssa.Return:
+				r = x
+			default:
+				return nil, false
+			}
+		}
+		if r == nil || len(r.Results) != 1 {
+			return nil, false
+		}
+		switch r.Results[0].(type) {
+		case *ssa.Parameter, *ssa.Const, *ssa.BinOp:
+		default:
+			return nil, false
+		}
+		if _, isC := r.Results[0].(*ssa.Const); !isC {
+			if _, known := fr.vals[r.Results[0]]; !known {
+				return nil, false
+			}
+		}
+		s, ok := e.get(st, fr, r.Results[0]).(bScalar)
+		if !ok {
+			return nil, false
+		}
+		return s.t, true
+	}
+	c, ok := e.get(st, fr, cond.Cond).(bScalar)
+	if !ok || c.t.Sort != SBool {
+		return nil, false
+	}
+	x, ok1 := ret(b0.Succs[0])
+	y, ok2 := ret(b0.Succs[1])
+	if !ok1 || !ok2 || x.Sort != y.Sort {
+		return nil, false
+	}
+	return bScalar{st.norm(Ite(c.t, x, y))}, true
 }
